@@ -63,6 +63,9 @@ def ugrid_dataset(m, rng, force=None):
         "face_coords": bool(rng.random() < 0.3),
         "conn_via": _pick(rng, ["topology_attr", "cf_role"]),
     }
+    if rng.random() < 0.15:
+        # storage already in the library's standard form (platform int, most negative fill)
+        d["dtype"], d["fill"] = "int64", "intmin"
     if force:
         d.update(force)
     mixed = len({len(f) for f in m.faces}) > 1
